@@ -63,9 +63,16 @@ Definition p_write (p : policy) (n : N) (tags : tagset) (t v w : N) : policy :=
   let r := write (p_ix p1) (mkS pm tags) in
   mkP (p_cur p1) (p_nextm p1) (fst r) (p_deld p1) (p_mem p1 ++ [mkR pm (snd r) t v w]) (p_files p1).
 
+
+Definition p_flush (p : policy) : policy :=
+  mkP (p_cur p) (p_nextm p) (p_ix p) (p_deld p) [] (p_files p ++ [p_mem p]).
+
 (* DROP SERIES: the ids the listing path finds are recorded in the in-memory set; [durable] = they are in a part on disk
-   before the statement is acknowledged (_repaired) or only after the next flush of the table, [p_sync] (_current) *)
-Definition p_drop_series (durable : bool) (am : N -> N -> bool) (p : policy) (n : N) (q : option expr) : policy :=
+   before the statement is acknowledged (_repaired) or only after the next flush of the table, [p_sync] (_current);
+   [flushfirst] = the memtable is flushed before the ids are searched and recorded (_repaired: no row written before the drop is
+   left in the WAL) or not (_current) *)
+Definition p_drop_series (durable flushfirst : bool) (am : N -> N -> bool) (p0 : policy) (n : N) (q : option expr) : policy :=
+  let p := if flushfirst then p_flush p0 else p0 in
   match cur p n with
   | None => p
   | Some pm =>
@@ -87,17 +94,23 @@ Definition p_drop_mst (p : policy) (n : N) : policy :=
           (filter keep (p_mem p)) (map (filter keep) (p_files p))
   end.
 
-Definition p_flush (p : policy) : policy :=
-  mkP (p_cur p) (p_nextm p) (p_ix p) (p_deld p) [] (p_files p ++ [p_mem p]).
 (* compaction / merge of k adjacent files starting at file i into one file holding the newest row of every point *)
 Definition p_compact (p : policy) (i k : nat) : policy :=
   let fs := p_files p in
   mkP (p_cur p) (p_nextm p) (p_ix p) (p_deld p) (p_mem p)
       (firstn i fs ++ [lww (concat (firstn k (skipn i fs)))] ++ skipn k (skipn i fs)).
-(* restart (clean or kill -9): the in-memory deleted set is reloaded from the table on disk; memtable rows come back from
-   the WAL, index entries from the index *)
+(* restart (clean or kill -9): the in-memory deleted set is reloaded from the table on disk; the memtable is rebuilt by
+   replaying the WAL: a WAL row carries its series KEY, and the replay looks the key up like any write - a row whose id is
+   recorded as deleted gets a fresh id. (Index entries and files are on disk.) *)
+Definition replay_row (st : dstate * list prow) (x : prow) : dstate * list prow :=
+  match key_of (d_L (fst st)) (r_id x) with
+  | k :: _ => let r := write (fst st) k in (fst r, snd st ++ [mkR (r_m x) (snd r) (r_t x) (r_v x) (r_w x)])
+  | [] => (fst st, snd st ++ [x])
+  end.
 Definition p_restart (p : policy) : policy :=
-  mkP (p_cur p) (p_nextm p) (mkD (d_L (p_ix p)) (p_deld p) (d_next (p_ix p)) (d_dead (p_ix p))) (p_deld p) (p_mem p) (p_files p).
+  let ix0 := mkD (d_L (p_ix p)) (p_deld p) (d_next (p_ix p)) (d_dead (p_ix p)) in
+  let st := fold_left replay_row (p_mem p) (ix0, []) in
+  mkP (p_cur p) (p_nextm p) (fst st) (p_deld p) (snd st) (p_files p).
 
 (* a read of measurement n with tag predicate q (None: plain select / field filter / group by / aggregates): the rows of the
    merged view that belong to the current incarnation and whose id the read path selects; reported with the tags of the id *)
@@ -134,12 +147,12 @@ Inductive top :=
 | TSync (d r : N)                     (* the deleted-id table of the policy flushes its pending items *)
 | TRestart (d r : N).
 
-Definition tstep (durable : bool) (am : N -> N -> bool) (s : tstate) (o : top) : tstate :=
+Definition tstep (durable flushfirst : bool) (am : N -> N -> bool) (s : tstate) (o : top) : tstate :=
   match o with
   | TCreateDB d => if mem d (t_dbs s) then s else mkTS (t_dbs s ++ [d]) (t_pols s)
   | TCreateRP d r => if mem d (t_dbs s) then mkTS (t_dbs s) (kins (d, r) empty_policy (t_pols s)) else s
   | TWrite d r n tags t v w => mkTS (t_dbs s) (kupd (d, r) (fun p => p_write p n tags t v w) (t_pols s))
-  | TDropSeries d r n q => mkTS (t_dbs s) (kupd (d, r) (fun p => p_drop_series durable am p n q) (t_pols s))
+  | TDropSeries d r n q => mkTS (t_dbs s) (kupd (d, r) (fun p => p_drop_series durable flushfirst am p n q) (t_pols s))
   | TDropMst d r n => mkTS (t_dbs s) (kupd (d, r) (fun p => p_drop_mst p n) (t_pols s))
   | TDropRP d r => mkTS (t_dbs s) (kdel (key_eqb (d, r)) (t_pols s))
   | TDropDB d => mkTS (filter (fun x => negb (x =? d)) (t_dbs s)) (kdel (fun k => fst k =? d) (t_pols s))
@@ -148,7 +161,8 @@ Definition tstep (durable : bool) (am : N -> N -> bool) (s : tstate) (o : top) :
   | TSync d r => mkTS (t_dbs s) (kupd (d, r) p_sync (t_pols s))
   | TRestart d r => mkTS (t_dbs s) (kupd (d, r) p_restart (t_pols s))
   end.
-Definition trun (durable : bool) (am : N -> N -> bool) (s : tstate) (os : list top) : tstate := fold_left (tstep durable am) os s.
+Definition trun (durable flushfirst : bool) (am : N -> N -> bool) (s : tstate) (os : list top) : tstate :=
+  fold_left (tstep durable flushfirst am) os s.
 
 Definition tread (am : N -> N -> bool) (s : tstate) (d r n : N) (q : option expr) : list orow :=
   match kget (d, r) (t_pols s) with Some p => p_read am p n q | None => [] end.
